@@ -1,6 +1,7 @@
 import Netpol.Model.WorldParse
 import Netpol.Model.Engine
 import Netpol.Model.Diff
+import Netpol.Model.Ingress
 /-! Driver side of the world-level correspondence (`wcase` lines). -/
 namespace Netpol
 namespace WorldDriver
@@ -20,18 +21,24 @@ def runList (objs : List Obj) (focus : String) : Sexp :=
   | .error e => errSx e
   | .ok eng =>
     if eng.pods.isEmpty then .list [.atom "ok", .list [.atom "peers"]]
-    else match eng.peersList with
-      | .error e => errSx e
-      | .ok peers =>
-        let focusExists := focus == "" || peers.any (Engine.isFocus focus)
+    else match eng.peersList, eng.podOwnersMap with
+      | .error e, _ => errSx e
+      | _, .error e => errSx e
+      | .ok peers, .ok owners =>
+        let hasIngress := (IngressA.allowedIngress objs owners).isSome
+        let focusExists := focus == "" || (if focus == "ingress-controller" then hasIngress else peers.any (Engine.isFocus focus))
         if !focusExists then .list [.atom "ok", .atom "nofocus"]
         else match eng.connsBetweenPeers peers focus with
           | .error e => errSx e
           | .ok entries =>
-            let lines := sortStrs (entries.map fun x =>
-              x.src.str ++ " " ++ x.dst.str ++ " " ++ us (ConnSet.connStrFromProps x.conn.allowAll x.conn.protocolsAndPorts))
-            .list ([.atom "ok", .list (.atom "peers" :: (sortStrs (peers.map (·.str))).map .atom)] ++
-              lines.map fun l => .list (.atom "e" :: (l.splitOn " ").map .atom))
+            match IngressA.ingressEntries eng objs owners focus with
+            | .error e => errSx e
+            | .ok (ing, blocked) =>
+              let lines := sortStrs ((entries ++ ing).map fun x =>
+                x.src.str ++ " " ++ x.dst.str ++ " " ++ us (ConnSet.connStrFromProps x.conn.allowAll x.conn.protocolsAndPorts))
+              .list ([.atom "ok", .list (.atom "peers" :: (sortStrs (peers.map (·.str))).map .atom)] ++
+                (lines.map fun l => .list (.atom "e" :: (l.splitOn " ").map .atom)) ++
+                (if blocked.isEmpty then [] else [.list (.atom "blocked" :: (sortStrs blocked).map .atom)]))
 
 def runQuery (objs : List Obj) (q : Sexp) : Sexp :=
   match q with
